@@ -1,9 +1,12 @@
 package props
 
 import (
+	"fmt"
 	"go/ast"
 	"go/token"
 	"go/types"
+
+	"golang.org/x/tools/go/cfg"
 
 	"zverif/checker/an"
 )
@@ -15,6 +18,7 @@ func c32(p *an.Prog, r *an.R, tier string) {
 	r.Rule("C32.R1", "the removeAll of trashed shards is reached only under `conflicts || old`, `old` is set only where ModTime.Before(now - 24h)")
 	r.Rule("C32.R2", "every path to the final moveAll(trashDir, …)/maybeSetTombstone passes the loop that deletes all assigned repositories from the candidate map")
 	r.Rule("C32.R3", "inside the loop over assigned repositories a repository found in the trash is restored with moveAll(indexDir, …)")
+	c32Vacuum(p, r)
 	f := p.Func(isrv, "cleanup")
 	d := p.Decl(f)
 	removeAll := p.Func(isrv, "removeAll")
@@ -215,6 +219,139 @@ func c32(p *an.Prog, r *an.R, tier string) {
 		}
 		r.Floor("C32.R2.trash-moves", 2, n)
 	}
+}
+
+// c32Vacuum: removeTombstones rewrites a compound shard by merging it with
+// itself; the old shard's files may be removed only once that merge succeeded.
+func c32Vacuum(p *an.Prog, r *an.R) {
+	r.Rule("C32.R4", "removeTombstones deletes the compound shard's files only on paths where the merge that rewrites it returned a nil error (a deferred deletion runs on the error returns too)")
+	f := p.Func(isrv, "removeTombstones")
+	d := p.Decl(f)
+	rm, rmAll := p.ExtFunc("os", "Remove"), p.ExtFunc("os", "RemoveAll")
+	if !r.Anchor(d != nil && rm != nil && rmAll != nil, isrv+".removeTombstones / os.Remove") {
+		return
+	}
+	r.Fn(an.FuncName(f))
+	info := d.Pkg.TypesInfo
+	g := an.NewG(info, d.Decl.Body)
+	// the merge call: a call of a local func() error value (runMerge), its error variable and the test that follows
+	var mergeLoc *an.Loc
+	var mergeErr types.Object
+	for _, l := range g.Locs(func(ast.Node) bool { return true }) {
+		as, ok := g.Node(l).(*ast.AssignStmt)
+		if !ok || len(as.Lhs) != 1 || len(as.Rhs) != 1 {
+			continue
+		}
+		c, ok := ast.Unparen(as.Rhs[0]).(*ast.CallExpr)
+		if !ok || len(c.Args) != 0 {
+			continue
+		}
+		id, ok := ast.Unparen(c.Fun).(*ast.Ident)
+		if !ok {
+			continue
+		}
+		if v, ok := info.ObjectOf(id).(*types.Var); ok {
+			if sig, ok := v.Type().Underlying().(*types.Signature); ok && sig.Results().Len() == 1 && types.Identical(sig.Results().At(0).Type(), errorType) {
+				ll := l
+				mergeLoc = &ll
+				mergeErr = info.ObjectOf(as.Lhs[0].(*ast.Ident))
+			}
+		}
+	}
+	if !r.Anchor(mergeLoc != nil && mergeErr != nil, "removeTombstones/err = runMerge()") {
+		return
+	}
+	mergeOK := func(l an.Loc) bool {
+		// reached only through the nil edge of a test of mergeErr that follows the merge call without reassignment
+		return func() bool {
+			// every path entry -> l passes: mergeLoc, then a nil-edge of `mergeErr != nil` with no assignment to mergeErr in between
+			reassigned := func(k an.Loc) bool {
+				if k == *mergeLoc {
+					return false
+				}
+				as, ok := g.Node(k).(*ast.AssignStmt)
+				if !ok {
+					return false
+				}
+				for _, lh := range as.Lhs {
+					if isIdentOf(info, lh, mergeErr) {
+						return true
+					}
+				}
+				return false
+			}
+			// (1) l is not reachable without passing the merge call
+			if g.Reach(g.Entry(), false, &an.Search{Target: func(k an.Loc) bool { return k == l }, Cut: func(k an.Loc) bool { return k == *mergeLoc }}) {
+				return false
+			}
+			// (2) from the merge call, l is not reachable when the non-nil edges of tests of mergeErr are cut
+			//     and paths through a reassignment are treated as reaching (unknown)
+			bad := g.Reach(*mergeLoc, true, &an.Search{
+				Target: func(k an.Loc) bool { return k == l || reassigned(k) },
+				CutEdge: func(b *cfg.Block, k int) bool {
+					cond := an.CondOf(b)
+					if cond == nil {
+						return false
+					}
+					isT, nonNilOnTrue := isErrNilTest(info, cond, mergeErr)
+					if !isT {
+						return false
+					}
+					// cut the nil edge: we look for a way to l that avoids having seen err == nil
+					return (k == 0) != nonNilOnTrue
+				},
+			})
+			return !bad
+		}()
+	}
+	n := 0
+	var stack []ast.Node
+	ast.Inspect(d.Decl.Body, func(nd ast.Node) bool {
+		if nd == nil {
+			stack = stack[:len(stack)-1]
+			return true
+		}
+		stack = append(stack, nd)
+		c, ok := nd.(*ast.CallExpr)
+		if !ok {
+			return true
+		}
+		cal := an.Callee(info, c)
+		if cal != rm && cal != rmAll {
+			return true
+		}
+		n++
+		key := fmt.Sprintf("%s.removeTombstones/remove#%d/only-after-successful-merge", isrv, n)
+		// inside a deferred literal?
+		var deferStmt *ast.DeferStmt
+		for i := len(stack) - 1; i >= 0; i-- {
+			if ds, ok := stack[i].(*ast.DeferStmt); ok {
+				deferStmt = ds
+			}
+		}
+		if deferStmt != nil {
+			// runs on every return after the defer statement: is there an error return reachable from it?
+			dl, ok := g.Find(deferStmt)
+			if !ok {
+				r.Und("C32.R4", key, c.Pos(), "defer statement not in the CFG")
+				return true
+			}
+			errRet := g.Reach(dl, true, &an.Search{Target: func(k an.Loc) bool {
+				rs, ok := g.Node(k).(*ast.ReturnStmt)
+				return ok && len(rs.Results) > 0 && !info.Types[rs.Results[len(rs.Results)-1]].IsNil()
+			}})
+			r.Check(!errRet, "C32.R4", key, c.Pos(), "the deferred removal cannot run on an error return", "the compound shard is removed by a deferred function that also runs when removeTombstones returns an error (the merge failed and nothing replaced the shard): every live repository in it disappears from the index")
+			return true
+		}
+		l, ok := g.Find(c)
+		if !ok {
+			r.Und("C32.R4", key, c.Pos(), "removal not in the CFG")
+			return true
+		}
+		r.Check(mergeOK(l), "C32.R4", key, c.Pos(), "the old shard is removed only after the merge succeeded", "the compound shard can be removed on a path where the merge was not seen to succeed")
+		return true
+	})
+	r.Floor("C32.R4.removals", 1, n)
 }
 
 func c32Kind(info *types.Info, n ast.Node, tomb *types.Func) string {
